@@ -255,6 +255,9 @@ def run_program(world, prog):
                     ev['shape'] = bool(shape)
                     ev['ps'] = [rat_json(p.amount) for p in portions]
                     ev['rem'] = rat_json(rem.amount)
+                    ev['zs'] = list(op.get('zs', []))[:len(portions)]
+                    for zreg, portion in zip(ev['zs'], portions):
+                        regs[zreg] = portion               # the very objects allocate() returned
                     events.append(ev)
                     continue
                 elif o == 'Sum':
@@ -286,6 +289,7 @@ def run_program(world, prog):
                 if o in ('Alloc', 'HashEq', 'Sort'):
                     ev['perm'] = []
                     ev['shape'] = False
+                    ev['zs'] = []
                     ev['ps'] = []
                     ev['rem'] = [0, 1]
                     ev['eq'] = False
